@@ -44,6 +44,10 @@ def plan(tier, seed):
     specs = [{"part": "validate", "seed": seed, "lo": i, "hi": min(n, i + BATCH)} for i in range(0, n, BATCH)]
     m = 4000 if tier == "quick" else 20000
     specs += [{"part": "capture", "seed": seed, "lo": i, "hi": min(m, i + 20)} for i in range(0, m, 20)]
+    # both parts again in an interpreter started with -O (assert statements compiled away)
+    k = 4 if tier == "quick" else 30
+    specs += [{"part": "validate", "seed": seed, "lo": 10**6 + i * BATCH, "hi": 10**6 + (i + 1) * BATCH, "interpreter": "optimize"} for i in range(k)]
+    specs += [{"part": "capture", "seed": seed, "lo": 10**6 + i * 20, "hi": 10**6 + (i + 1) * 20, "interpreter": "optimize"} for i in range(k)]
     return specs
 
 
@@ -287,8 +291,9 @@ def one_validate(seed, i, res):
                     this_rejects = False
                     applied = "none" if applied != "none" else applied
                 else:
+                    tb_exc = rng.choice([excs.UserError("tb"), excs.MidUserError("tb"), excs.DeepUserError("tb"), OSError(3, "os"), FileNotFoundError(2, "nf")])
                     try:
-                        raise rng.choice([excs.UserError("tb"), OSError(3, "os")])
+                        raise tb_exc
                     except Exception:
                         if rng.random() < 0.3:
                             with eliot.start_action(MemoryLogger(), "c14:foreign"):
@@ -297,6 +302,17 @@ def one_validate(seed, i, res):
                         else:
                             write_traceback(logger)
                     if not leave_traceback:
+                        # flushing by a class takes exactly the tracebacks of that class and its subclasses: an expected
+                        # FileNotFoundError does not excuse an unexpected OSError
+                        before = len(logger.tracebackMessages)
+                        flush_cls = rng.choice([Exception, Exception, excs.UserError, excs.MidUserError, excs.DeepUserError, OSError, FileNotFoundError, KeyError])
+                        flushed = logger.flush_tracebacks(flush_cls)
+                        # (earlier tracebacks of this log were all flushed or the log is one that leaves them)
+                        want = 1 if isinstance(tb_exc, flush_cls) else 0
+                        if len(flushed) != want or len(logger.tracebackMessages) != before - want:
+                            problems.append("flush_tracebacks(%s) with a logged %s traceback flushed %d (expected %d), %d remain unflushed" % (
+                                flush_cls.__name__, type(tb_exc).__name__, len(flushed), want, len(logger.tracebackMessages)))
+                        res["counters"]["flushes_by_class"] = res["counters"].get("flushes_by_class", 0) + 1
                         logger.flush_tracebacks(Exception)
                     this_rejects = False
                     applied = "none"
